@@ -7,7 +7,8 @@ reference: permanent lines (printed / logged lines, final frames of stopped non-
 displays) in order, followed by the frame of the renderable that was current at the last
 rendering event.  Histories reaching an already seen canonical state are not extended.
 E4: for every explored history up to a smaller depth, an exception is injected (a) at every
-render-call index of a faulty renderable / progress column and (b) after every position of
+render-call index of a faulty renderable / progress column -- once as an Exception subclass and once as a
+BaseException that is not an Exception, like KeyboardInterrupt -- and (b) after every position of
 the `with` block; then cursor visibility, stdout/stderr identity, hook stack and propagation
 are checked. (c) "caught and continued": the k-th render call raises once, the caller catches the
 exception and the history goes on; from the next successful rendering on the screen oracle applies
@@ -41,6 +42,14 @@ class InjectedFault(Exception):
     pass
 
 
+class InjectedBaseFault(BaseException):
+    """like KeyboardInterrupt / SystemExit: not an Exception subclass"""
+
+
+FAULT_CLASS = [InjectedFault]      # the class raised by the injection points (switched per fault run)
+ANY_FAULT = (InjectedFault, InjectedBaseFault)
+
+
 class Faulty:
     """A renderable that raises on its k-th render call (1-based); counts calls."""
 
@@ -52,7 +61,7 @@ class Faulty:
     def __rich_console__(self, console, options):
         self.counter[0] += 1
         if self.counter[0] == self.k:
-            raise InjectedFault("render call %d" % self.k)
+            raise FAULT_CLASS[0]("render call %d" % self.k)
         from rich.text import Text
         if self.lines:
             yield Text("\n".join(self.lines))
@@ -129,7 +138,7 @@ class Session:
                 def render(self, task):
                     sess.render_calls[0] += 1
                     if sess.fault_k is not None and sess.render_calls[0] == sess.fault_k:
-                        raise InjectedFault("column call %d" % sess.fault_k)
+                        raise FAULT_CLASS[0]("column call %d" % sess.fault_k)
                     return Text("%s %d" % (task.description, task.completed))
             self.disp = Progress(Col(), console=self.console, auto_refresh=False, transient=self.transient,
                                  get_time=lambda: self.clock[0])
@@ -441,7 +450,7 @@ def run_history(cfg, hist, fault_k=None):
             if i == len(hist) - 1:
                 vio = v
         return s, vio, None
-    except InjectedFault as e:
+    except ANY_FAULT as e:
         return s, vio, e
     finally:
         sys.stdout, sys.stderr = s.saved_stdout, s.saved_stderr
@@ -546,15 +555,20 @@ def _faults(cfg, histories, maxdepth, res):
         # K(h): render calls in the fault-free run inside a with-block
         base = _run_block(cfg, hist, None, None)
         K = base["render_calls"]
-        for k in range(1, K + 1):
-            out = _run_block(cfg, hist, k, None)
-            res.evaluations += 1
-            _judge_fault(cfg, hist, ("render", k), out, res)
         body_len = len(hist) - hist.index(("start",)) if ("start",) in hist else len(hist)
-        for pos in range(0, body_len + 1):
-            out = _run_block(cfg, hist, None, pos)
-            res.evaluations += 1
-            _judge_fault(cfg, hist, ("block", pos), out, res)
+        for cls, tag in ((InjectedFault, "render"), (InjectedBaseFault, "render-base")):
+            FAULT_CLASS[0] = cls
+            try:
+                for k in range(1, K + 1):
+                    out = _run_block(cfg, hist, k, None)
+                    res.evaluations += 1
+                    _judge_fault(cfg, hist, (tag, k), out, res)
+                for pos in range(0, body_len + 1):
+                    out = _run_block(cfg, hist, None, pos)
+                    res.evaluations += 1
+                    _judge_fault(cfg, hist, (tag.replace("render", "block"), pos), out, res)
+            finally:
+                FAULT_CLASS[0] = InjectedFault
     res.count("fault_histories", len([h for h in histories if len(h) <= maxdepth]))
 
 
@@ -569,7 +583,7 @@ def _run_continue(cfg, hist, k):
         for i, ev in enumerate(hist):
             try:
                 s.apply(ev)
-            except InjectedFault:
+            except ANY_FAULT:
                 faulted = i
                 if not s.on_fault(ev):
                     break
@@ -627,14 +641,14 @@ def _run_block(cfg, hist, fault_k, fault_pos):
                 stage = "body"
                 for i, ev in enumerate(hist):
                     if fault_pos is not None and i == fault_pos:
-                        raise InjectedFault("block position %d" % i)
+                        raise FAULT_CLASS[0]("block position %d" % i)
                     if ev[0] in ("start", "stop"):
                         continue
                     s.apply(ev)
                 if fault_pos is not None and fault_pos == len(hist):
-                    raise InjectedFault("block position %d" % fault_pos)
+                    raise FAULT_CLASS[0]("block position %d" % fault_pos)
                 stage = "exit"
-        except InjectedFault as e:
+        except ANY_FAULT as e:
             raised = e
         s.feed()
         live = s.disp if s.kind != "status" else s.disp._live
@@ -652,7 +666,7 @@ def _judge_fault(cfg, hist, fault, out, res):
     kind = cfg["kind"]
     case = {"cfg": cfg, "history": hist, "fault": list(fault)}
     where = "%s/fault-%s" % (kind, fault[0])
-    if fault[0] == "block" or out["raised"] is not None or fault[1] <= out["render_calls"]:
+    if fault[0].startswith("block") or out["raised"] is not None or fault[1] <= out["render_calls"]:
         if out["raised"] is None:
             res.violate(where + "/exception-swallowed", case, "the injected exception did not propagate (stage %s)" % out["stage"])
     stage = "/in-start" if out["stage"] == "enter" else ""
@@ -723,7 +737,11 @@ def replay(case):
         return sorted(set((k, d) for k, d, _i in vio))
     if "fault" in case:
         f = case["fault"]
-        out = _run_block(cfg, hist, f[1] if f[0] == "render" else None, f[1] if f[0] == "block" else None)
+        FAULT_CLASS[0] = InjectedBaseFault if f[0].endswith("-base") else InjectedFault
+        try:
+            out = _run_block(cfg, hist, f[1] if f[0].startswith("render") else None, f[1] if f[0].startswith("block") else None)
+        finally:
+            FAULT_CLASS[0] = InjectedFault
         _judge_fault(cfg, hist, tuple(f), out, res)
         return [(k, v[2]) for k, v in sorted(res.violations.items())]
     out = []
